@@ -47,10 +47,14 @@ class pcomp(object):
             self._array = x
             self._xstd = None
         self._standardize = standardize
+        #
+        # For a single variable np.cov and np.corrcoef return a 0-d array;
+        # eigh needs the 1 x 1 matrix.
+        #
         if covariance:
-            self._c = np.cov(self._array, rowvar=0)
+            self._c = np.atleast_2d(np.cov(self._array, rowvar=0))
         else:
-            self._c = np.corrcoef(self._array, rowvar=0)
+            self._c = np.atleast_2d(np.corrcoef(self._array, rowvar=0))
         self._covariance = covariance
         #
         # eigh is used for symmetric matrices
